@@ -3,8 +3,8 @@
   `splitArrow` recovers head and body, `dropTrailingRp` removes exactly the atom's own parenthesis,
   the comparison finder `findCmp` finds the printed comparison operator.
 -/
-import ILV.Lemmas.Text
-namespace ILV.Text
+import ILV.Lemmas.RuleText
+namespace ILV.RText
 
 /-! ### generic scanning facts about `splitTopAux` -/
 
@@ -216,4 +216,4 @@ theorem dropTrailingRp_snoc : âˆ€ (xs : List Tok), xs.getLast? â‰  some Tok.rp â
     unfold dropTrailingRp
     simp [ih]
 
-end ILV.Text
+end ILV.RText
